@@ -207,6 +207,18 @@ def rule_r1(ctx) -> List[R.Inst]:
                                 if lpm:
                                     acc = (n.targets[0].id, lpm[0], lpm[1], src, None)
         rets = [n for n in walk_no_nested(fn.node) if isinstance(n, ast.Return) and n.value is not None]
+        # scatter form: U = np.empty_like(A); U[P] = A; return U   ==   return A[P⁻¹]  (P a permutation)
+        for r_ in rets:
+            if isinstance(r_.value, ast.Name):
+                u = r_.value.id
+                mk = [n for n in walk_no_nested(fn.node) if isinstance(n, ast.Assign) and isinstance(n.targets[0], ast.Name) and n.targets[0].id == u]
+                sc = [n for n in walk_no_nested(fn.node) if isinstance(n, ast.Assign) and isinstance(n.targets[0], ast.Subscript) and
+                      isinstance(n.targets[0].value, ast.Name) and n.targets[0].value.id == u]
+                if len(mk) == 1 and len(sc) == 1 and isinstance(mk[0].value, ast.Call) and call_name(mk[0].value) in (
+                        "empty_like", "empty", "zeros_like", "zeros", "full_like"):
+                    inv = ast.Call(func=ast.Attribute(value=sc[0].targets[0].slice, attr="argsort", ctx=ast.Load()), args=[], keywords=[])
+                    gather = ast.Subscript(value=sc[0].value, slice=inv, ctx=ast.Load())
+                    r_.value = ast.copy_location(ast.fix_missing_locations(ast.copy_location(gather, r_.value)), r_.value)
         main = [r for r in rets if isinstance(r.value, ast.Subscript)]
         if acc is None or len(main) != 1:
             # second structure: no sorting at all — one result per query, in query order, the active change found by bisection
@@ -219,6 +231,9 @@ def rule_r1(ctx) -> List[R.Inst]:
         name, p, query, lp, zipped = acc
         rv = main[0].value
         base = rv.value
+        for _ in range(3):          # a local bound once to an expression over the accumulator (np.array(acc)) stands for it
+            if isinstance(base, ast.Name) and base.id != name and base.id in _LOCALS:
+                base = _LOCALS[base.id]
         holds_acc = any(isinstance(x, ast.Name) and x.id == name for x in ast.walk(base))
         ip = perm_of(rv.slice, sorters)
         if zipped is not None:
